@@ -548,7 +548,11 @@ impl<Context: ServerContext> HttpRouter<Context> {
             if let Some(hdrs) = err.headers.as_deref_mut() {
                 hdrs.reserve(node.methods.len());
             }
-            for allowed in node.methods.keys() {
+            // Only list the methods that are served at the requested version.
+            for (allowed, handlers) in &node.methods {
+                if find_handler_matching_version(handlers, version).is_none() {
+                    continue;
+                }
                 err.add_header(http::header::ALLOW, allowed)
                     .expect("method should be a valid allow header");
             }
